@@ -30,7 +30,7 @@ RULE = (
 )
 BOUNDS = {
     "quick": "1: 7 symmetric + 6 seeded asymmetric wavelet pairs, depth sum <= 2, components up to 4x4, bit depths 1/8/10/16; 2: bands up to 4x4; 4: <= 3 coefficients of 6 bits, scaler up to 8; 5: 2x1 picture, 2-bit samples; 6: 12 lossless configurations x 4 pictures",
-    "thorough": "1: all 49 pairs at depth sum <= 2 with components up to 8x8, the 7 symmetric pairs also at depth sum 3 with components up to 5x3; 2: bands up to 8x8; 4: <= 4 coefficients of 8 bits; 5: 2x1 picture (3x1 for the lossless mode); 6: 20 configurations x 6 pictures",
+    "thorough": "1: all 49 pairs at depth sum <= 2 with components up to 8x8, the 7 symmetric pairs also at depth sum 3 with components up to 5x3; 2: bands up to 8x8; 4: <= 4 coefficients of 8 bits; 5: 2x1 picture; 6: 20 configurations x 6 pictures",
 }
 OUTSIDE = "the composition argument (1-4 imply the property for every configuration) is informal; 5 and 6 check that the pieces are composed in matching order only for the listed configurations"
 ASSUMPTIONS = ["samples are within the configured bit depth (property precondition)"]
@@ -68,9 +68,9 @@ def tasks(tier, seed):
         out.append({"id": "lengths n=%d" % n, "harness": "lengths", "args": (n, 6 if q else 8)})
     out.append({"id": "hq lossless rescale", "harness": "rescale", "args": (8 if q else 32,)})
     for mode in ("lossless", "lossy-q0", "ld-lossy-q0"):
-        # all values of every 2-bit sample: 2x1 = 12 bits (4096 paths); thorough widens the lossless run to 3x1 (18 bits);
-        # a 2x2 picture (24 bits, 16.7M paths per mode) does not fit any budget
-        out.append({"id": "e2e %s" % mode, "harness": "e2e", "args": (mode, (2, 1) if (q or mode != "lossless") else (3, 1))})
+        # all values of every 2-bit sample: 2x1 = 12 bits (4096 paths); 3x1 (18 bits, 262k full pipeline runs) and 2x2 (24 bits) do not fit
+        # the budget, so both tiers use 2x1
+        out.append({"id": "e2e %s" % mode, "harness": "e2e", "args": (mode, (2, 1))})
     out.append({"id": "glue", "harness": "glue", "args": (tier,)})
     return out
 
